@@ -259,7 +259,7 @@ def to_coq(case, o):
         item['labels'].append('%s: Moebius identity, self-redundancy, top = I(all:target)' % case['cls'])
     if always or o['consistent']:
         # (an incomplete decomposition flagged inconsistent fills its atoms by other inference rules)
-        item['goals'].append(bg('pi_corr %d%%nat %s' % (k, ob)))
+        item['goals'].append(bg('pi_corr_s %s %d%%nat %s' % ('(1#1)' if always else '(5#1)', k, ob)))
         item['labels'].append('%s: atoms = Moebius inversion (model pis_list) of the reported redundancies' % case['cls'])
     ident = lib.natlist(list(range(k)))
     for key, what in (('table_explicit', 'sources listed in reverse order, target explicit'), ('table_tfirst', 'target stored first, sources explicit')):
